@@ -492,6 +492,28 @@ func c07CLI(r *core.Run, tier string) {
 		}
 		r.AddNT("clishape|" + name)
 	}
+	// a statement that only pass 1 can refuse, in front of tens of thousands of ordinary statements: the diagnostic must
+	// still be there at the end of the run (pass-1 messages are buffered while branch forms are settled), in process and
+	// through the command
+	{
+		for _, bad := range []string{"\tDW table_end\n", "\tDB undefined_name\n", "\tRESB nowhere\n"} {
+			long := bad + strings.Repeat("\tNOP\n", 40000) + "table_end:\n\tHLT\n"
+			ref := "\tDB 1\n" + strings.Repeat("\tNOP\n", 40000) + "table_end:\n\tHLT\n"
+			api, apiRef := p.ExecTimed(long, 10*time.Minute), p.ExecTimed(ref, 10*time.Minute)
+			c, cRef := p.CLI(long, nil, false), p.CLI(ref, nil, false)
+			n += 2
+			name := "refused_statement_then_40000_statements|" + strings.TrimSpace(bad)
+			if !api.Died && !core.ReportsDiag(api, apiRef) {
+				r.AddFail("cli_shapes", name+"|api", map[string]string{"shape": "early_error_long_source"}, nil,
+					core.Fail{Facet: "undefined_symbol", Dev: "diagnostic_lost_in_long_source", Detail: fmt.Sprintf("in process: no diagnostic for %q in front of 40000 statements (%d bytes written)", strings.TrimSpace(bad), len(api.Out))})
+			}
+			if c.ExitCode == 0 && !core.ReportsDiag(c, cRef) {
+				r.AddFail("cli_shapes", name+"|command", map[string]string{"shape": "early_error_long_source"}, nil,
+					core.Fail{Facet: "undefined_symbol", Dev: "diagnostic_lost_in_long_source", Detail: fmt.Sprintf("the command: no diagnostic for %q in front of 40000 statements (%d bytes written, exit 0)", strings.TrimSpace(bad), len(c.Out))})
+			}
+			r.AddNT("clishape|" + name)
+		}
+	}
 	r.AddSample(map[string]any{"cli_diagnostic_representative": order[0]})
 	r.AddCustom("cli_diagnostics", "one representative statement for each distinct diagnostic message observed in process over the arity<=1 space, re-run through the real command: a diagnostic must be visible there too",
 		map[string]any{"distinct_messages": len(order)}, n+1, n, n, n, 1, true, time.Since(t0).Seconds())
